@@ -130,6 +130,28 @@ def _is_chain(e: ast.AST) -> bool:
     return isinstance(e, ast.Name)
 
 
+def expand(repo: Repo, fi: FuncInfo, e: ast.AST | None, depth: int = 4) -> ast.AST | None:
+    """`e` with every single-assignment local replaced by its defining expression (recursively):
+    matching is then independent of how intermediate values were named or hoisted.  For *matching*
+    only -- snapshot semantics of mutable fields are deliberately ignored here."""
+    if e is None or depth <= 0:
+        return e
+    mapping: dict[str, ast.AST] = {}
+    params = set(fi.params())
+    for n in ast.walk(e):
+        if isinstance(n, ast.Name) and isinstance(n.ctx, ast.Load) and n.id not in params and n.id not in mapping:
+            al = repo.local_alias(n.id, fi)
+            if al is not None and not (isinstance(al, ast.Constant) and al.value is None) and not any(isinstance(x, ast.Name) and x.id == n.id for x in ast.walk(al)):
+                mapping[n.id] = al
+    if not mapping:
+        return e
+    return expand(repo, fi, _Subst(mapping).visit(copy.deepcopy(e)), depth - 1)
+
+
+def xtext(repo: Repo, fi: FuncInfo, e: ast.AST | None) -> str:
+    return norm(expand(repo, fi, e)) if e is not None else ""
+
+
 def nexpr(repo: Repo, fi: FuncInfo, e: ast.AST, aliases: dict[str, ast.AST] | None = None) -> str:
     """Normalised expression text with local aliases substituted."""
     if aliases is None:
